@@ -124,6 +124,13 @@ static void symm_solve(const Eigen::MatrixXd &A, int kind, int neigen, int ci, i
     DS.set_tolerance(tols[ti]);
     DS.set_iter_max(itmax);
     if (mss) DS.set_max_search_space(mss);
+    // one case in three (a fixed function of the case, so that a replay does the same) uses the solver object for the second time: it
+    // has first solved the same matrix with rows and columns in reverse order (small diagonal entries at the other end); nothing of
+    // that solve may influence the one that is judged
+    if ((A.rows() + neigen + ci + ui + ti) % 3 == 0) {
+      Eigen::MatrixXd P = A.reverse();
+      try { DS.solve(P, neigen); } catch (std::exception &) {}
+    }
     DS.solve(A, neigen);
     o << " " << (DS.info() == Eigen::ComputationInfo::Success ? "success" : "noconv") << " " << DS.num_iterations();
     Eigen::VectorXd ev = DS.eigenvalues();
